@@ -309,6 +309,7 @@ Proof.
   - eapply inv_dac_clear; eauto.
   - eapply inv_dac_arm; eauto.
   - eapply inv_dac_run; eauto.
+  - unfold update_parameters in H. destruct (lookup name (regs st)); inversion H; subst; auto.
 Qed.
 
 Lemma inv_dac_run_history dm : forall h st,
